@@ -530,6 +530,10 @@ register(PropertySpec(
              "engine code compares nodes by identity: == / != on a node-valued slot would build a (truthy) comparison expression"),
         Rule("SLOT-STORE-LINKED", _lazy("history", "rule_slot_store_linked"), 3,
              "a node put into another node's operand / child slot after construction is linked below it in the graph as well (the reset and the cache invalidation follow the graph)"),
+        Rule("CONCLUDED-WHEN-KEPT", _lazy("ruletree", "rule_concluded_when_kept"), 2,
+             "what a selector records as concluded for a row is taken back when a refinement above fires for that row"),
+        Rule("REFINEMENT-PER-ROW", _lazy("ruletree", "rule_refinement_per_row"), 1,
+             "the true rows of a refinement are keyed by the variables of the branch it refines"),
     ],
     explanation="Attaching a branch rewires the condition tree in place; evaluation follows the left/right fields, not "
                 "the graph edges, so a selector that is attached in the graph but not stored in its parent's operand slot "
